@@ -354,6 +354,9 @@ type cqStats struct{ schedules, decisions int64 }
 
 func runCQHistory(r *vrt.R, fam cqFamily, st *cqStats, fixedBound int) func(h []cqOp) bfs.Outcome {
 	return func(h []cqOp) bfs.Outcome {
+		if r.Expired() { // soft deadline: do not start another exploration
+			return bfs.Outcome{Terminal: true, Key: "incomplete:" + fmt.Sprint(h)}
+		}
 		bound := fixedBound
 		if bound == -2 {
 			bound = boundFor(r.Thorough(), len(h))
@@ -436,11 +439,18 @@ func TestVerif(t *testing.T) {
 		if r.Thorough() {
 			depth = 6
 		}
-		for _, fam := range fams {
+		for fi, fam := range fams {
 			st := &cqStats{}
+			// under the soft deadline every family (and the deep scenarios after them) gets its share of what is left
+			dl := r.DeadlineTime()
+			if !dl.IsZero() {
+				if left := time.Until(dl); left > 0 {
+					dl = time.Now().Add(left / time.Duration(len(fams)-fi+1))
+				}
+			}
 			res := bfs.Explore(bfs.Config[cqOp]{Name: "bfs:" + fam.name, Ops: fam.ops(), Depth: depth, Run: runCQHistory(r, fam, st, -2),
 				Enabled: func(h []cqOp, op cqOp) bool { return true },
-				Shard:   r.Shard, NShards: r.NShards, Deadline: r.DeadlineTime()})
+				Shard:   r.Shard, NShards: r.NShards, Deadline: dl})
 			res.Merge(r, "bfs:"+fam.name)
 			r.AddExtra("schedules", st.schedules)
 			r.AddExtra("scheduling_decisions", st.decisions)
